@@ -19,6 +19,7 @@ func checkC19(c *Ctx, r *Report) {
 	checkNudge(c, r)
 	checkSampleGrid(c, r)
 	checkPerspective(c, r)
+	checkSampleGridForwarding(c, r)
 	checkBitMatrixGetGuard(c, r, "M-GETGUARD")
 	r.Note("not decided: floating-point accuracy of the transform; detectors' choice of the four points")
 }
@@ -768,8 +769,12 @@ func checkPerspective(c *Ctx, r *Report) {
 	var lits []litAt
 	var walk func(list []ast.Stmt)
 	walk = func(list []ast.Stmt) {
+		pushed := 0
+		defer func() { s.conds = s.conds[:len(s.conds)-pushed] }()
 		for _, st := range list {
 			switch x := st.(type) {
+			case *ast.BlockStmt:
+				walk(x.List)
 			case *ast.IfStmt:
 				cnd := s.cond(x.Cond)
 				saved := s.copyEnv()
@@ -784,6 +789,10 @@ func checkPerspective(c *Ctx, r *Report) {
 					}
 					s.conds = s.conds[:len(s.conds)-1]
 					s.env = saved
+				} else if terminates(x.Body.List) {
+					// `if c { ...; return }` followed by the other branch: the rest runs under !c
+					s.conds = append(s.conds, negCond(cnd))
+					pushed++
 				}
 			case *ast.ReturnStmt:
 				if len(x.Results) == 1 {
@@ -936,4 +945,78 @@ func prettyPoly(p *Poly) string {
 		sb.WriteByte(s[i])
 	}
 	return sb.String()
+}
+
+// M-SAMPLEFWD: SampleGrid hands its sixteen coordinates on in the order it received them
+func checkSampleGridForwarding(c *Ctx, r *Report) {
+	r.Rule("M-SAMPLEFWD", "DefaultGridSampler.SampleGrid builds its transform with PerspectiveTransform_QuadrilateralToQuadrilateral from its own sixteen coordinate parameters, each passed in the position it was received in (eight symbol-side coordinates, then eight image-side coordinates), and samples with SampleGridWithTransform(image, dimensionX, dimensionY, that transform)", 1)
+	fd, p := c.funcDeclOf("common", "DefaultGridSampler.SampleGrid")
+	key := "common.DefaultGridSampler.SampleGrid"
+	if fd == nil {
+		r.AnchorLost("M-SAMPLEFWD", key, "method not found")
+		return
+	}
+	r.Analysed(key)
+	ps := paramObjs(p, fd)
+	if len(ps) != 19 {
+		r.Undecided("M-SAMPLEFWD", key, c.pos(fd.Pos()), fmt.Sprintf("expected image, two dimensions and sixteen coordinates; the method has %d parameters", len(ps)))
+		return
+	}
+	bad := ""
+	q := findCalls(p, fd.Body, func(o types.Object) bool {
+		return isFuncNamed(o, "common", "PerspectiveTransform_QuadrilateralToQuadrilateral")
+	})
+	w := findCalls(p, fd.Body, func(o types.Object) bool {
+		return isMethodNamed(o, "common", "DefaultGridSampler", "SampleGridWithTransform")
+	})
+	assigned := func(o types.Object) int { return countAssignsAST(p, fd.Body, o) }
+	switch {
+	case len(q) != 1 || len(q[0].Args) != 16:
+		bad = "?expected one call of PerspectiveTransform_QuadrilateralToQuadrilateral with sixteen arguments"
+	case len(w) != 1 || len(w[0].Args) != 4:
+		bad = "?expected one call of SampleGridWithTransform"
+	}
+	if bad == "" {
+		for i, a := range q[0].Args {
+			o := identObj(p, a)
+			if o != ps[3+i] || assigned(o) != 0 {
+				bad = fmt.Sprintf("argument %d of QuadrilateralToQuadrilateral is %s; the coordinate received in that position is %s", i+1, types.ExprString(a), ps[3+i].Name())
+				break
+			}
+		}
+	}
+	if bad == "" {
+		for i := 0; i < 3; i++ {
+			if o := identObj(p, w[0].Args[i]); o != ps[i] || assigned(o) != 0 {
+				bad = fmt.Sprintf("argument %d of SampleGridWithTransform is %s, not the %s received", i+1, types.ExprString(w[0].Args[i]), ps[i].Name())
+			}
+		}
+		// the transform: the result of the call above, directly or through a variable assigned once
+		t := ast.Unparen(w[0].Args[3])
+		if t != ast.Expr(q[0]) {
+			o := identObj(p, t)
+			okT := false
+			if o != nil {
+				n := 0
+				ast.Inspect(fd.Body, func(nd ast.Node) bool {
+					if as, ok := nd.(*ast.AssignStmt); ok {
+						for i, l := range as.Lhs {
+							if id, ok := l.(*ast.Ident); ok && (p.TypesInfo.Defs[id] == o || p.TypesInfo.Uses[id] == o) {
+								n++
+								if len(as.Rhs) == len(as.Lhs) && ast.Unparen(as.Rhs[i]) == ast.Expr(q[0]) {
+									okT = true
+								}
+							}
+						}
+					}
+					return true
+				})
+				okT = okT && n == 1
+			}
+			if !okT && bad == "" {
+				bad = "the transform sampled with is not the one built from the sixteen coordinates"
+			}
+		}
+	}
+	reportFold(r, c, "M-SAMPLEFWD", key, fd.Pos(), bad)
 }
